@@ -29,7 +29,8 @@ var defaultPoor = []string{"submit_proposal", "set_network_properties", "vote_pr
 	"remove_whitelist_role_permission", "remove_blacklist_role_permission", "claim_validator", "activate", "pause", "unpause"}
 
 func defaultTokens() []c09lib.Tok {
-	return []c09lib.Tok{{"ukex", sdk.NewDec(1), true}, {"ubtc", sdk.NewDec(10), true}, {"xeth", sdk.NewDecWithPrec(1, 1), true}, {"frozen", sdk.NewDecWithPrec(1, 1), true}}
+	return []c09lib.Tok{{"ukex", sdk.NewDec(1), true}, {"ubtc", sdk.NewDec(10), true}, {"xeth", sdk.NewDecWithPrec(1, 1), true}, {"frozen", sdk.NewDecWithPrec(1, 1), true},
+		{c09lib.IbcDenom, sdk.NewDec(2), true}, {c09lib.MixDenom, sdk.NewDecWithPrec(5, 1), false}}
 }
 
 func baseCfg() *c09lib.Cfg {
@@ -54,8 +55,8 @@ func randCfg(r *hx.Rng) *c09lib.Cfg {
 			c.Tokens[i].FeeEnabled = false
 		}
 	}
-	c.Black = subset(r, []string{"frozen", "ubtc", "ukex", "xeth", "ufoo"}, 35)
-	c.White = subset(r, []string{"ukex", "ubtc", "xeth", "frozen"}, 50)
+	c.Black = subset(r, []string{"frozen", "ubtc", "ukex", "xeth", "ufoo", c09lib.IbcDenom, c09lib.MixDenom}, 35)
+	c.White = subset(r, []string{"ukex", "ubtc", "xeth", "frozen", c09lib.IbcDenom, c09lib.MixDenom}, 50)
 	c.EnBlack, c.EnWhite = r.Chance(70), r.Chance(35)
 	c.Foreign = r.Chance(70)
 	c.ViaGov = r.Chance(30)
@@ -298,7 +299,7 @@ func main() {
 	// then a send of / a fee in a token the proposal names, and a two-coin send
 	{
 		K := func(d string, v int64) sdk.Coin { return sdk.NewInt64Coin(d, v) }
-		lists := [][]string{{"frozen", "ubtc"}, {"ubtc", "frozen"}, {"ubtc", "ubtc", "xeth"}, {}, {"ukex", "ubtc"}, {"xeth", "frozen", "ubtc"}, {"ubtc"}, {"frozen", "frozen"}, {"ufoo", "frozen", "xeth", "ubtc"}}
+		lists := [][]string{{"frozen", c09lib.IbcDenom, "ubtc"}, {c09lib.MixDenom, "ubtc"}, {"frozen", "ubtc"}, {"ubtc", "frozen"}, {"ubtc", "ubtc", "xeth"}, {}, {"ukex", "ubtc"}, {"xeth", "frozen", "ubtc"}, {"ubtc"}, {"frozen", "frozen"}, {"ufoo", "frozen", "xeth", "ubtc"}}
 		for _, black := range []bool{true, false} {
 			for _, add := range []bool{true, false} {
 				for _, l := range lists {
@@ -306,7 +307,7 @@ func main() {
 						c := baseCfg()
 						c.Black, c.White = []string{"frozen"}, []string{"ukex", "frozen"}
 						if !add { // something to remove
-							c.Black, c.White = []string{"frozen", "xeth", "ubtc"}, []string{"ukex", "frozen", "ubtc", "xeth"}
+							c.Black, c.White = []string{"frozen", "xeth", "ubtc", c09lib.IbcDenom}, []string{"ukex", "frozen", c09lib.MixDenom, "ubtc", "xeth", c09lib.IbcDenom}
 						}
 						c.EnBlack, c.EnWhite = black, !black
 						props = []wbProp{{Black: black, Add: add, Tokens: l}}
@@ -319,7 +320,7 @@ func main() {
 						case 1:
 							run(c, c09lib.TxSpec{Fee: []sdk.Coin{K("ubtc", 50)}, Msgs: []c09lib.M{{Kind: "send", From: "a2", To: "a3", Amt: sdk.Coins{K("ukex", 5)}}}, Seqs: []uint64{0}, SigOK: true}, "governance")
 						default:
-							run(c, c09lib.TxSpec{Fee: fee(150), Msgs: []c09lib.M{g.msg(c, "register_identity_records", "a2", ""), {Kind: "send", From: "a2", To: "a3", Amt: sdk.Coins{K("ubtc", 5), K("xeth", 4)}}}, Seqs: []uint64{0}, SigOK: true}, "governance")
+							run(c, c09lib.TxSpec{Fee: fee(150), Msgs: []c09lib.M{g.msg(c, "register_identity_records", "a2", ""), {Kind: "send", From: "a2", To: "a3", Amt: sdk.Coins{K(c09lib.IbcDenom, 2), K("ubtc", 5), K("xeth", 4)}}}, Seqs: []uint64{0}, SigOK: true}, "governance")
 						}
 					}
 				}
@@ -376,12 +377,18 @@ func main() {
 		}
 	}
 	// the shared freeze-configuration sweep (c09lib.FreezeSweep): every corner x every path
-	for _, fc := range c09lib.FreezeSweep(baseCfg) {
+	quick := os.Getenv("VERIF_TIER") != "thorough"
+	for fi, fc := range c09lib.FreezeSweep(baseCfg) {
 		tok := sdk.NewCoins(sdk.NewInt64Coin(fc.Token, 5))
 		nat := sdk.NewCoins(sdk.NewInt64Coin("ukex", 3))
 		run(fc.Cfg, c09lib.TxSpec{Fee: fee(170), Msgs: []c09lib.M{{Kind: "send", From: "a2", To: "a3", Amt: tok}}, Seqs: []uint64{0}, SigOK: true}, fc.Tag+":send")
-		run(fc.Cfg, c09lib.TxSpec{Fee: fee(170), Msgs: []c09lib.M{{Kind: "multisend", From: "a2", Amt: tok, Outs: []c09lib.Out{{To: "a3", Amt: tok}}}}, Seqs: []uint64{0}, SigOK: true}, fc.Tag+":multisend")
-		run(fc.Cfg, c09lib.TxSpec{Fee: fee(170), Msgs: []c09lib.M{{Kind: "custody_send", From: "a2", To: "a3", Amt: tok}}, Seqs: []uint64{0}, SigOK: true}, fc.Tag+":custody_send")
+		if fc.Token == c09lib.IbcDenom || fc.Token == c09lib.MixDenom {
+			// case-sensitive denominations: also as the second message of a transaction
+			run(fc.Cfg, c09lib.TxSpec{Fee: fee(170), Msgs: []c09lib.M{g.msg(fc.Cfg, "register_identity_records", "a2", ""), {Kind: "send", From: "a2", To: "a3", Amt: tok}}, Seqs: []uint64{0}, SigOK: true}, fc.Tag+":send-second")
+		} else if !quick || fi%3 == 0 { // the two unfiltered paths: every third corner in the quick tier, all in the thorough tier
+			run(fc.Cfg, c09lib.TxSpec{Fee: fee(170), Msgs: []c09lib.M{{Kind: "multisend", From: "a2", Amt: tok, Outs: []c09lib.Out{{To: "a3", Amt: tok}}}}, Seqs: []uint64{0}, SigOK: true}, fc.Tag+":multisend")
+			run(fc.Cfg, c09lib.TxSpec{Fee: fee(170), Msgs: []c09lib.M{{Kind: "custody_send", From: "a2", To: "a3", Amt: tok}}, Seqs: []uint64{0}, SigOK: true}, fc.Tag+":custody_send")
+		}
 		run(fc.Cfg, c09lib.TxSpec{Fee: []sdk.Coin{fc.Fee}, Msgs: []c09lib.M{{Kind: "send", From: "a2", To: "a3", Amt: nat}}, Seqs: []uint64{0}, SigOK: true}, fc.Tag+":fee")
 		if fc.Token == "ukex" {
 			run(fc.Cfg, c09lib.TxSpec{Fee: fee(170), Msgs: []c09lib.M{{Kind: "eth", From: "e0", To: "a3", EthAmt: 5}}, Seqs: []uint64{0}, SigOK: true}, fc.Tag+":eth")
